@@ -113,7 +113,7 @@ def c14_1(ctx: Ctx):
                   key=f"C14.1::directive::{member}")
 
 
-@rule("C14.2", ["C14"], "opcode registration is injective per opcode type and fused ranges stay inside a byte", 4)
+@rule("C14.2", ["C14", "C15"], "opcode registration is injective per opcode type and fused ranges stay inside a byte", 4)
 def c14_2(ctx: Ctx):
     repo = ctx.repo
     for base, enum_name, enum_qual in (("dwarf.expr.Operation", "ExpressionOperations", "dwarf.dwarf2.ExpressionOperations"),
